@@ -678,10 +678,13 @@ class VPKFileSystem(FileSystem[VPKFile]):
 
     def walk_folder(self, folder: str = '') -> Iterator[File[Self]]:
         """Yield files in a folder."""
-        # All VPK files use forward slashes.
-        folder = folder.replace('\\', '/')
-        for file in self._name_to_file.values():
-            if file.dir.startswith(folder):
+        # All VPK files use forward slashes. Compare with the case-folded names like lookups do.
+        folder = folder.replace('\\', '/').casefold().rstrip('/')
+        if folder:
+            # Only match whole folder names: "materials" is not a parent of "materials2/x".
+            folder += '/'
+        for key, file in self._name_to_file.items():
+            if key.startswith(folder):
                 yield File(self, file.filename, file)
 
     def open_bin(self, name: Union[str, File[Self]]) -> BinaryIO:
